@@ -4,6 +4,9 @@ import (
 	"bytes"
 	"fmt"
 	"math"
+	"math/rand"
+	"os"
+	"path/filepath"
 	"strings"
 
 	"github.com/d5/tengo/v2"
@@ -250,9 +253,88 @@ func (c *c12) sharedModuleProbe(r *fw.Rec) {
 	}
 }
 
+// fileImportProbe: module FILES (file import enabled) imported at several sites, with duplicate
+// constants in front of the modules' own; de-duplicated bytecode must behave like the original.
+func (c *c12) fileImportProbe(r *fw.Rec, rng *rand.Rand) {
+	dir, err := os.MkdirTemp(fw.WorkDir("C12"), "files")
+	if err != nil {
+		r.Inconc("cannot create module files: " + err.Error())
+		return
+	}
+	defer os.RemoveAll(dir)
+	files := map[string]string{
+		"util.tengo": "name := \"util\"\ntag := func(s) { return name + \":\" + s }\nexport {name: name, tag: tag, n: 42, dup: \"dup\"}\n",
+		"mid.tengo":  "u := import(\"./util\")\nexport {t: u.tag(\"mid\") + \"/\" + u.n, d: \"dup\"}\n",
+	}
+	for n, t := range files {
+		if e := os.WriteFile(filepath.Join(dir, n), []byte(t), 0o644); e != nil {
+			r.Inconc("cannot write module file")
+			return
+		}
+	}
+	k := 1 + rng.Intn(6)
+	src := "pad := [" + strings.Repeat("\"dup\", 7, 7.5, ", k) + "\"dup\"]\nu1 := import(\"./util\")\nm := import(\"./mid\")\nu2 := import(\"./util\")\n" +
+		"f := func() { return import(\"./util\").tag(\"fn\") }\nout := [u1.name, u2.tag(\"main\"), m.t, m.d, f(), len(pad), u1.n + 7]\n"
+	build := func(dedup bool) (*rawCompiled, error) {
+		var rc *rawCompiled
+		err := safely(func() error {
+			st := tengo.NewSymbolTable()
+			for idx, fn := range tengo.GetAllBuiltinFunctions() {
+				st.DefineBuiltin(idx, fn.Name)
+			}
+			fs := parser.NewFileSet()
+			sf := fs.AddFile("(main)", -1, len(src))
+			file, e := parser.NewParser(sf, []byte(src), nil).ParseFile()
+			if e != nil {
+				return e
+			}
+			cc := tengo.NewCompiler(sf, st, nil, tengo.NewModuleMap(), nil)
+			cc.EnableFileImport(true)
+			cc.SetImportDir(dir)
+			if e := cc.Compile(file); e != nil {
+				return e
+			}
+			bc := cc.Bytecode()
+			if dedup {
+				bc.RemoveDuplicates()
+			}
+			rc = &rawCompiled{BC: bc, Globals: make([]tengo.Object, tengo.GlobalsSize), Index: map[string]int{}, NumGlob: st.MaxSymbols()}
+			for _, n := range st.Names() {
+				if sym, _, ok := st.Resolve(n, false); ok && sym.Scope == tengo.ScopeGlobal {
+					rc.Index[n] = sym.Index
+				}
+			}
+			return nil
+		})
+		return rc, err
+	}
+	raw, e1 := build(false)
+	dd, e2 := build(true)
+	r.EvalN(2)
+	r.Inc("file-import-probes")
+	detail := map[string]interface{}{"source": src, "files": files}
+	if e1 != nil || e2 != nil {
+		detail["error_original"], detail["error_deduplicated"] = fmt.Sprint(e1), fmt.Sprint(e2)
+		if e1 == nil {
+			r.Violate("dedup:file-modules:error", "RemoveDuplicates failed on a program importing module files", detail)
+		}
+		return
+	}
+	a := runRaw(raw, raw.BC, 1_000_000, nil)
+	b := runRaw(dd, dd.BC, 1_000_000, nil)
+	if a.ErrText != b.ErrText || a.Globals["out"] != b.Globals["out"] || (a.Panic != nil) != (b.Panic != nil) {
+		detail["original"] = map[string]interface{}{"error": a.ErrText, "out": a.Globals["out"]}
+		detail["deduplicated"] = map[string]interface{}{"error": b.ErrText, "out": b.Globals["out"]}
+		r.Violate("dedup:file-modules:differs", "de-duplicated bytecode of a program importing one module file at several sites behaves differently", detail)
+	}
+}
+
 func (c *c12) RunCase(r *fw.Rec, cs fw.Case) {
 	if cs.Index == 0 {
 		c.sharedModuleProbe(r)
+	}
+	if cs.Index%500 == 1 {
+		c.fileImportProbe(r, cs.Rng("c12-files"))
 	}
 	rng := cs.Rng("c12")
 	opts := gen.Options{MaxStmts: 4 + rng.Intn(14), MaxDepth: 2 + rng.Intn(2), CallDefined: true}
